@@ -148,7 +148,8 @@ func (h *Handler) handleRequest(host *packet.Host, p packet.DHCP4, options packe
 			return nil // request not for us - silently discard packet
 		}
 
-		if !bytes.Equal(lease.Addr.MAC, p.CHAddr()) || // invalid hardware
+		if lease.State == StateFree || // nothing offered or leased to this client: nothing to confirm
+			!bytes.Equal(lease.Addr.MAC, p.CHAddr()) || // invalid hardware
 			(lease.State == StateDiscover && (!bytes.Equal(lease.XID, p.XId()) || lease.IPOffer != reqIP || h.inUse(lease, lease.IPOffer))) || // invalid discover request or address taken since the offer
 			(lease.State == StateAllocated && lease.Addr.IP != reqIP) { // invalid request - iphone send duplicate select packets - let it pass
 			Logger.Msg("request NACK - select invalid parameters").ByteArray("xid", p.XId()).ByteArray("lxid", lease.XID).IP("leaseIP", lease.Addr.IP).Write()
